@@ -218,7 +218,9 @@ class Real:
             def tr(x):
                 f = Fraction(x.numerator_as_long(), x.denominator_as_long()); return int(f) & ((1 << bits) - 1)
             return z3.If(v.arg(0), z3.BitVecVal(tr(v.arg(1)), bits), z3.BitVecVal(tr(v.arg(2)), bits))
-        raise Unsupported("fptosi of a symbolic real")
+        # truncation toward zero of a symbolic real (no overflow: out-of-range conversion is undefined behaviour in C and outside every claim)
+        v = s.z(v)
+        return z3.Int2BV(z3.If(v >= 0, z3.ToInt(v), -z3.ToInt(-v)), bits)
     def to_bits(s, v):
         if isinstance(v, Fraction):
             f = float(v)
